@@ -12,6 +12,7 @@
 #define SYM_NAMES 0
 #define SYM_FLAGS 0
 #define NH 4
+#define NO_OUTLOG   /* this harness never looks at the raw output log */
 #include "world.h"
 
 #ifndef SHAPESTR
